@@ -16,7 +16,8 @@ package req
 //               model (C07.Token);
 //   - h1wire    the same streams plus header-specific value positions (Alt-Svc, Content-Type,
 //               Content-Encoding, Content-Disposition, Location, Set-Cookie, WWW-Authenticate,
-//               Content-Length, Retry-After, Connection, Trailer) through real clients over TCP/TLS:
+//               Content-Length, Retry-After, Connection, Trailer) and body positions the charset sniffer reads (first
+//               bytes / BOMs, every offset of a <meta> / <?xml?> declaration) through real clients over TCP/TLS:
 //               background goroutines (readLoop) included; oracle = returns response-or-error, no
 //               panic; a dying process is reported by bin/check with the case that was running.
 
@@ -404,7 +405,7 @@ func c07HdrStream(hp c07HdrPos, value string) []byte {
 // TestVerif_C07_h1wire: the matrix through real clients over loopback TCP / TLS.
 func TestVerif_C07_h1wire(t *testing.T) {
 	s := verifh.New(t, "C07", "h1wire",
-		"byte-position matrix over the wire: (a) the h1pos streams (all 256 byte values at field-name positions incl. 1xx and trailer names, stratified elsewhere in the quick tier: all controls, DEL, UTF-8 class edges, every delimiter, digit/hex/alpha edges + a seed-dependent eighth; thorough: all) and (b) one byte inserted at EVERY offset of typical Alt-Svc, Content-Type (charset), Content-Encoding, Content-Disposition, Location, Set-Cookie, WWW-Authenticate (digest), Retry-After, Content-Range, Connection, Trailer, Etag values (byte values as before), each under the option sets that react to that header (auto-decode, auto-decompress, digest auth, download, result unmarshalling, dump, HTTP/3 enabled over TLS, everything+retry); real client over loopback; oracle: the call returns response-or-error within 15 s, no panic in the caller; a panic in a background goroutine kills the lane process and bin/check reports the running case; every case non-trivial")
+		"byte-position matrix over the wire: (a) the h1pos streams (all 256 byte values at field-name positions incl. 1xx and trailer names, stratified elsewhere in the quick tier: all controls, DEL, UTF-8 class edges, every delimiter, digit/hex/alpha edges + a seed-dependent eighth; thorough: all) and (b) one byte inserted at EVERY offset of typical Alt-Svc, Content-Type (charset), Content-Encoding, Content-Disposition, Location, Set-Cookie, WWW-Authenticate (digest), Retry-After, Content-Range, Connection, Trailer, Etag values (byte values as before) and (c) body positions read by the charset sniffer when Content-Type has no charset (all 256 values as first byte / after partial BOMs, one byte inserted at every offset of <meta charset>, <meta http-equiv> and <?xml encoding?> declarations), each under the option sets that react to that header (auto-decode, auto-decompress, digest auth, download, result unmarshalling, dump, HTTP/3 enabled over TLS, everything+retry); real client over loopback; oracle: the call returns response-or-error within 15 s, no panic in the caller; a panic in a background goroutine kills the lane process and bin/check reports the running case; every case non-trivial")
 	peer := newC07Peer(t)
 	defer peer.closeAll()
 	plainBase := "http://" + peer.ln.Addr().String()
@@ -543,6 +544,48 @@ func TestVerif_C07_h1wire(t *testing.T) {
 					}
 					runOne(byName[on], stream, fmt.Sprintf("%s: byte 0x%02x inserted at offset %d -> %q", hp.header, b, off, value), "h1wire-hdr")
 				}
+			}
+		}
+	}
+	// (c) the BODY positions the charset sniffer looks at (no charset in Content-Type): the first
+	// bytes (BOM table) and every offset of a <meta> declaration
+	bodyOpts := []string{"plain", "autodecode-all", "everything", "noautoread"}
+	bodyStream := func(ct string, body []byte) []byte {
+		return append([]byte("HTTP/1.1 200 OK\r\nContent-Type: "+ct+"\r\nContent-Length: "+strconv.Itoa(len(body))+"\r\n\r\n"), body...)
+	}
+	for _, b := range all {
+		for pi, pre := range [][]byte{nil, {0xef, 0xbb}, {0xfe}, {0xff}, {0xef}} {
+			k++
+			if !verifh.Thorough() && pi > 0 && (k+int(b))%2 != 0 {
+				continue
+			}
+			body := append(append(append([]byte{}, pre...), b), "<html><body>\xc4\xe3\xba\xc3</body></html>"...)
+			s.Count("body:first-bytes")
+			runOne(byName[bodyOpts[k%len(bodyOpts)]], bodyStream("text/html", body), fmt.Sprintf("body starts with % x then byte 0x%02x", pre, b), "h1wire-body")
+		}
+	}
+	for _, meta := range []string{
+		"<html><head><meta charset=\"gbk\"></head>\xc4\xe3\xba\xc3</html>",
+		"<meta http-equiv=\"Content-Type\" content=\"text/html; charset=big5\">\xa7A\xa6n",
+		"<?xml version=\"1.0\" encoding=\"gb2312\"?><a>\xc4\xe3</a>",
+	} {
+		thin := 1
+		if !verifh.Thorough() {
+			thin = (len(meta)+1)*len(strat)/150 + 1
+		}
+		for off := 0; off <= len(meta); off++ {
+			for _, b := range strat {
+				k++
+				if (k+off)%thin != 0 {
+					continue
+				}
+				body := []byte(meta[:off] + string([]byte{b}) + meta[off:])
+				ct := "text/html"
+				if strings.HasPrefix(meta, "<?xml") {
+					ct = "text/xml"
+				}
+				s.Count("body:meta-offsets")
+				runOne(byName[bodyOpts[(k/thin)%len(bodyOpts)]], bodyStream(ct, body), fmt.Sprintf("body %q with byte 0x%02x inserted at offset %d", meta, b, off), "h1wire-body")
 			}
 		}
 	}
